@@ -175,17 +175,28 @@ def run(ctx):
         descr = []
         for op, lhs, rhs in cmps:
             descr.append('%r %s %r' % (lhs, op, rhs))
-            sl = repr(lhs)
-            if op == '<=' and sl == repr(ndarr.s_abs(d1)):
+            if op == '<=' and ndarr.same_magnitude(lhs, ndarr.s_abs(d1)):
                 found['err1'] = True
-            elif op == '<=' and sl == repr(ndarr.s_abs(d2)):
+            elif op == '<=' and ndarr.same_magnitude(lhs, ndarr.s_abs(d2)):
                 found['err2'] = True
             elif op == '<=' and ndarr.concrete_real(rhs) == Fr(1, 10000):
-                for cand in (sss_expected * e1, -sss_expected * e1):
-                    if sl == repr(ndarr.s_abs(cand)) or sl == repr(ndarr.s_abs(Rat.of(cand))) or _abs_arg_equal(lhs, cand):
-                        found['irregular'] = True
+                # (a magnitude may be written |x*y| or |x|*|y|: compared through the squares)
+                if ndarr.same_magnitude(lhs, ndarr.s_abs(Rat.of(sss_expected * e1))):
+                    found['irregular'] = True
         guard_ok = all(found.values()) and len(cmps) == 3 and alg_equal(conv_value, e2)
         gfact = {'tests': descr, 'recognised': found, 'value_when_guard_holds': repr(conv_value)}
+        # every test must read the same at every scale of the terms ("L, a over 30 orders of magnitude"): both sides of
+        # one test have the same degree of homogeneity in (e0, e1, e2); a tolerance with an absolute floor has not
+        degrees = []
+        for op, lhs, rhs in cmps:
+            dl = ndarr.homogeneity_degree(lhs, ('e0', 'e1', 'e2'), ('EPS',))
+            dr = ndarr.homogeneity_degree(rhs, ('e0', 'e1', 'e2'), ('EPS',))
+            degrees.append((dl, dr))
+        gfact['degree_of_homogeneity_per_test'] = [[str(d) for d in pair] for pair in degrees]
+        if any(d is None for pair in degrees for d in pair):
+            raise AnalysisError('dea3 guard: scale behaviour of a test could not be read: %s' % (descr,))
+        if any('mixed' in pair or pair[0] != pair[1] for pair in degrees):
+            guard_ok = False
     else:
         gfact = {'result_is_not_a_guarded_choice': repr(r)[:200]}
     sib = sibling_guard(ctx)
@@ -193,20 +204,6 @@ def run(ctx):
     rep.check(guard_ok, 'R-GUARD', 'extrapolation.dea3', where, gfact,
               '|e1-e0| <= tol1 or |e2-e1| <= tol2 or |sss*e_1| <= 1e-4  ->  e_2', 'guard', key='guard')
     dataflow(ctx, ex, where)
-
-
-ABS_ARGS = {}
-
-
-def _abs_arg_equal(lhs, cand):
-    """lhs is the opaque atom abs(<X>); compare X with cand up to sign by re-deriving the atom name."""
-    for c in (cand, -cand):
-        try:
-            if repr(lhs) == repr(ndarr.s_abs(c)):
-                return True
-        except Exception:
-            pass
-    return False
 
 
 def sibling_guard(ctx):
